@@ -514,6 +514,62 @@ func runAll(c *run.Ctx) {
 			Pair(k, domain, a, b, false)
 		})
 	}
+	// multiplicity: hundreds of copies of a few overlapping areal members (counts around 256 and 512) in a
+	// UnionMany list or as the members of a collection operand: the point set is that of the distinct members
+	for i := 0; i < c.N(120, 1500); i++ {
+		c.Case("multiplicity", i, func(k *run.K) {
+			domain := gen.DSmall
+			g := &gen.G{R: k.Rng, Cfg: gen.NewCfg(k.Rng, domain)}
+			nd := k.Rng.Range(1, 3)
+			distinct := make([]geom.Geometry, nd)
+			for j := range distinct {
+				distinct[j] = g.Typed([]geom.GeometryType{geom.TypePolygon, geom.TypePolygon, geom.TypeMultiPolygon}[k.Rng.Intn(3)], 0)
+			}
+			other := g.Typed(gen.AllTypes[k.Rng.Intn(6)], 0)
+			N := []int{255, 256, 257, 300, 511, 512, 513, 768}[k.Rng.Intn(8)]
+			big := make([]geom.Geometry, N)
+			for j := range big {
+				big[j] = distinct[j%nd] // every distinct member at least once, in rotation
+			}
+			k.In("domain", domain)
+			k.In("copies", fmt.Sprint(N))
+			k.In("distinct", shared.WKT(geom.NewGeometryCollection(distinct).AsGeometry()))
+			k.In("other", shared.WKT(other))
+			k.Nontrivial(fmt.Sprint(N) + string(geom.NewGeometryCollection(distinct).AsGeometry().AsBinary()))
+			sd, so := exact.FromGeom(geom.NewGeometryCollection(distinct).AsGeometry()), exact.FromGeom(other)
+			jc := exact.NewJC(sd, so)
+			if jc.Arr.Err != "" {
+				k.Skip("oracle-inconsistent")
+				return
+			}
+			m := math.Max(sd.MaxAbs(), so.MaxAbs())
+			if cl := jc.Arr.Clearance(); cl < shared.ClearanceBound(domain, m) {
+				k.Skip("noerr")
+				k.Count("excluded_by_clearance", 1)
+				return
+			}
+			class := ""
+			if holeCoveredBySibling(sd) {
+				class = "hole-of-member-covered-by-sibling"
+			}
+			bigGC := geom.NewGeometryCollection(big).AsGeometry()
+			var r geom.Geometry
+			var err error
+			if !k.Lib("nopanic", func() { r, err = geom.UnionMany(big) }) {
+				judge(k, fmt.Sprintf("UnionMany(%d copies)", N), r, err, jc.Decompose(func(a, b bool) bool { return a }), m, class, "")
+			}
+			if !k.Lib("nopanic", func() { r, err = geom.UnaryUnion(bigGC) }) {
+				judge(k, fmt.Sprintf("UnaryUnion(collection of %d copies)", N), r, err, jc.Decompose(func(a, b bool) bool { return a }), m, class, "")
+			}
+			if !k.Lib("nopanic", func() { r, err = geom.Intersection(bigGC, other) }) {
+				judge(k, fmt.Sprintf("Intersection(collection of %d copies, other)", N), r, err, jc.Decompose(func(a, b bool) bool { return a && b }), m, class, "")
+			}
+			if !k.Lib("nopanic", func() { r, err = geom.Difference(other, bigGC) }) {
+				judge(k, fmt.Sprintf("Difference(other, collection of %d copies)", N), r, err, jc.Decompose(func(a, b bool) bool { return b && !a }), m, class, "")
+			}
+			k.Count("set_op_evaluations", 4)
+		})
+	}
 	for i := 0; i < c.N(1200, 15000); i++ {
 		c.Case("union-many", i, func(k *run.K) {
 			domain := shared.PickDomain(k.Rng)
